@@ -43,7 +43,11 @@ def values_for(setting, rng):
     if setting in ("cors_allow_headers", "cors_expose_headers"):
         return ["content-type,x-env-%d" % rng.below(99), "x-file-%d" % rng.below(99), "x-cli-%d,authorization" % rng.below(99)]
     if setting == "cors_max_age":
-        return [str(x) for x in rng.sample(range(1, 100000), 3)]
+        # the value is handed to the browser as given: also the legal special values -1 (do not cache) and 0
+        v = [str(x) for x in rng.sample(range(1, 100000), 3)]
+        if rng.chance(1, 2):
+            v[rng.below(3)] = rng.choice(["-1", "0", "-1"])
+        return v
     return [str(x) for x in rng.sample(range(5000, 60000), 3)]
 
 
